@@ -132,7 +132,22 @@ def test_simfs():
         pass
     fs.end_call()
     check(ex and fs.fired["toctou_removed"] == 1, "toctou removed the file after the check")
-    check(len(fs.open_handles) == 0, "no leaked handles in selftest")
+    # os-level descriptors, tempfile + rename
+    fs.put(p, b"0123456789")
+    fs.begin_call("s")
+    fd = os.open(p, os.O_WRONLY | os.O_CREAT, 0o664)
+    with os.fdopen(fd, "wb") as f:
+        f.write(b"abc")
+        f.flush()
+        os.fsync(f.fileno())
+    check(fs.get(p) == b"abc3456789", "os.open without O_TRUNC does not truncate")
+    import tempfile
+    with tempfile.NamedTemporaryFile("wb", dir="/simfs/d", delete=False) as t:
+        t.write(b"fresh")
+    os.replace(t.name, p)
+    check(fs.get(p) == b"fresh" and sorted(os.listdir("/simfs/d")) == ["f"], "tempfile + os.replace on SimFS")
+    fs.end_call()
+    check(len(fs.open_handles) == 0 and not fs.fds, "no leaked handles in selftest")
     simfs.mount(None)
 
 
